@@ -55,7 +55,8 @@ Shapes == {
 \* concrete layout prefixes (bytes) and scaled ones (kind, n)
 Pre(kind, n, bytes) == [kind |-> kind, n |-> n, bytes |-> bytes]
 Concrete == { <<>>, <<10>>, <<10, 10>>, <<13, 10>>, <<32, 32>>, <<9>>, <<35, 32, 99, 10>>, <<35, 195, 169, 10, 32>>, <<194, 160>>, <<10, 194, 133, 32>>,
-              B("print ") \o <<49, 10>>, B("print ") \o <<34, 195, 169, 10>> \o <<>>, <<13>>, <<10, 13>>, <<11, 12, 10, 32>> }
+              B("print ") \o <<49, 10>>, B("print ") \o <<34, 195, 169, 10>> \o <<>>, <<13>>, <<10, 13>>, <<11, 12, 10, 32>>,
+              <<35, 226, 130, 172, 10, 10>>, <<35, 32, 195, 169, 195, 169, 10, 9>>, B("print ") \o <<34, 226, 130, 172, 34, 10, 10>> }
 ScaleNs == { 230, 238, 239, 240, 241, 242, 2286, 2287, 2288, 2289, 4090, 4095, 4096, 4097, 8192, 67822, 67823, 67824, 67825 }
 Prefixes == { Pre("bytes", 0, c) : c \in Concrete \ { B("print ") \o <<34, 195, 169, 10>> } }
               \cup { Pre(k, n, <<>>) : k \in {"spaces", "commentline", "newlines"}, n \in ScaleNs }
